@@ -1,4 +1,4 @@
 SPECIFICATION Spec
-CONSTANT StrictProps = {"C02", "C03", "C04", "C05", "C06", "C07", "C08", "C09", "C11", "C12", "C14", "C15", "C16", "C17", "C18", "C19"}
+CONSTANT StrictProps = {"C01"}
 POSTCONDITION Accepted
 CHECK_DEADLOCK FALSE
